@@ -746,8 +746,8 @@ func (s *src) t5() (string, error) {
 		{"outputSuffix", "main.go", `command.GeneratePlugin(req, p, "_terraform.go")`},
 		{"featureProto3Optional", "main.go", `uint64(pluginpb.CodeGeneratorResponse_FEATURE_PROTO3_OPTIONAL)`},
 		{"customSchemaCall", "gen_schema.go", `j.Id("GenSchema"+f.Suffix).Call(j.Id("ctx"), j.Id(f.i.WithPackage(SDK, "Attribute")).Values(d))`},
-		{"customFromCall", "gen_copy_from.go", `j.Id("CopyFrom"+f.Suffix).Params(j.Id("diags"), j.Id("a"), j.Id("&obj."+f.Name))`},
-		{"customToCall", "gen_copy_to.go", `j.Id("diags"), j.Id("obj."+f.Name), j.Id("t"), j.Id("tf.Attrs").Index(j.Lit(f.NameSnake))`},
+		{"customFromCall", "gen_copy_from.go", `Id("CopyFrom"+f.Suffix).Params(j.Id("diags"), j.Id("a"), j.Id("&obj."+f.Name))`},
+		{"customToCall", "gen_copy_to.go", `j.Id("diags"), j.Id(fieldName), j.Id("t"), j.Id("tf.Attrs").Index(j.Lit(f.NameSnake))`},
 	}
 	b.WriteString("/-- source facts: (name, file, expected fragment, present) -/\ndef sourceFacts : List (String × Bool) := [\n")
 	for i, f := range facts {
